@@ -17,8 +17,9 @@ RULES = {
     'R6': 'qb_rb_space_free/used: one word is kept unused (the -1), equal indices mean empty, result scaled by the word size',
     'R7': 'no stale payload can pass for a chunk: before a chunk is published the two words the reader will take for the next header (at the new write_pt) are overwritten - the length word always, the marker word unless it is the published chunk\'s own length word (ring filled completely) - with values that are not the published-chunk marker',
     'R8': 'the space test cannot be fooled by a huge length: wherever qb_rb_chunk_alloc compares the free space with len + margin, len is already known not to exceed what the whole ring holds (a test of len against a quantity measured on word_size, made without adding to len): for the twelve lengths below SIZE_MAX the sum wraps to a small number',
+    'R9': 'the notifier\'s count is the number of chunks not taken yet, whatever the order of the reader\'s calls: qb_rb_chunk_peek gives the count it waited for back on every path (it takes no chunk), qb_rb_chunk_reclaim and qb_rb_chunk_read take one count for the chunk they take out (reclaim without blocking, and not at all if no count is there), and the internal reclaim they share takes none',
 }
-FLOORS = {'R1': 5, 'R2': 9, 'R3': 5, 'R4': 5, 'R5': 9, 'R6': 5, 'R7': 3, 'R8': 2}
+FLOORS = {'R1': 5, 'R2': 9, 'R3': 5, 'R4': 5, 'R5': 9, 'R6': 5, 'R7': 3, 'R8': 2, 'R9': 4}
 
 
 def run(ctx):
@@ -38,6 +39,7 @@ def run(ctx):
     r6(ctx)
     r7(ctx)
     r8(ctx)
+    r9(ctx)
 
 
 def _lin(e):
@@ -490,3 +492,92 @@ def _block_cut(f, bid, pred):
             if ef(blk, t, lab):
                 work.append(t)
     return True
+
+
+def r9(ctx):
+    prog = ctx.prog
+    WAIT, POST = 'qb_rb_notifier::timedwait_fn', 'qb_rb_notifier::post_fn'
+
+    def waits(f):
+        out, inner = [], set()
+        for ev in f.events():
+            if ev.kind in ('STORE', 'DECL'):
+                for n in walk((ev.rhs if ev.kind == 'STORE' else ev.d.get('init')) or {}):
+                    if n.get('k') == 'call' and callee_of(n) == WAIT:
+                        out.append(ev)
+                        inner.add(n.get('id'))
+        for ev in f.events('CALL'):
+            if ev.callee == WAIT and (ev.d.get('e') or {}).get('id') not in inner and not any(
+                    n.get('id') == (ev.d.get('e') or {}).get('id') for b in f.blocks.values() if b.cond is not None for n in walk(b.cond)):
+                out.append(ev)
+        return out
+
+    def wait_in_cond(f):
+        return [b for b in f.blocks.values() if b.cond is not None and any(n.get('k') == 'call' and callee_of(n) == WAIT for n in walk(b.cond))]
+    # peek: count-neutral
+    pk = prog.fn('qb_rb_chunk_peek')
+    w = waits(pk)
+    if len(w) != 1:
+        raise AnalysisBroken('qb_rb_chunk_peek: waits = %d' % len(w))
+    resv = estr(w[0].lhs) if w[0].kind == 'STORE' else None
+    bad = []
+    for ev in pk.returns():
+        # returns reached with the count taken (wait succeeded) must pass a post
+        def failed(a, fb):
+            return resv is not None and a.ls == resv and a.op == '<' and a.rc == 0
+        def no_notifier(a, fb):
+            lf = last_field(a.l)
+            return lf is not None and lf[0] == 'qb_rb_notifier' and lf[1] in ('post_fn', 'timedwait_fn') and a.op == '==' and a.rc == 0
+        hits, _e, _n = pk.search(('after', w[0]), goal=lambda x: x is ev, stop=lambda x: x.kind == 'CALL' and x.callee == POST,
+                                 edge_filter=lambda fb, t, lab: not (fb.cond is not None and lab in (True, False) and
+                                                                     any(failed(a, fb) or no_notifier(a, fb) for a in atoms_of(fb.cond, lab))))
+        if hits:
+            bad.append(ev)
+    ctx.check('R9', 'peek-leaves-the-count', not bad, bad[0] if bad else w[0], 'every return of qb_rb_chunk_peek behind a successful wait has given the count back',
+              'qb_rb_chunk_peek keeps the count it waited for although it takes no chunk: "peek, read" uses two counts for one chunk (the second read times out with '
+              'a chunk in the ring), and a reclaim without a peek leaves a count on an empty ring, which reads as "full" for ever')
+    # public reclaim: takes a count, without blocking, and only then a chunk
+    rc = prog.fn('qb_rb_chunk_reclaim')
+    inner = [ev for ev in rc.calls('_rb_chunk_reclaim')]
+    if len(inner) != 1:
+        raise AnalysisBroken('qb_rb_chunk_reclaim: internal reclaim calls = %d' % len(inner))
+    wc = wait_in_cond(rc)
+    ws = waits(rc)
+    took = False
+    if wc:
+        def got(a, fb):
+            l = unwrap(a.l)
+            return callee_of(l) == WAIT and a.op == '>=' and a.rc == 0
+        def nonotifier(a, fb):
+            return last_field(a.l) == ('qb_rb_notifier', 'timedwait_fn') and a.op == '==' and a.rc == 0
+        took = rc.uncut_path(inner[0], lambda a, fb: got(a, fb) or nonotifier(a, fb)) is None
+        nb = all(cval(unwrap(n['args'][1])) == 0 for b in wc for n in walk(b.cond) if n.get('k') == 'call' and callee_of(n) == WAIT)
+    elif ws:
+        took = all(rc.ev_dominates(x, inner[0]) for x in ws)
+        nb = all(cval(unwrap(n['args'][1])) == 0 for x in ws for n in walk(x.d.get('e') or x.d.get('rhs') or {}) if n.get('k') == 'call' and callee_of(n) == WAIT)
+    else:
+        nb = True
+    ctx.check('R9', 'reclaim-takes-a-count', took, inner[0], 'qb_rb_chunk_reclaim takes a chunk out only with a count taken (or without a notifier)',
+              'qb_rb_chunk_reclaim takes a chunk out of the ring without taking a count: after "write, reclaim" the count is 1 on an empty ring, qb_rb_space_free() '
+              'reads equal indices with a positive count as "full" and every later write is refused')
+    ctx.check('R9', 'reclaim-does-not-block', nb, inner[0], 'the count is taken with a zero timeout', 'qb_rb_chunk_reclaim can block waiting for a count')
+    # the shared internal reclaim takes no count
+    ir = prog.fn('_rb_chunk_reclaim')
+    ctx.check('R9', 'internal-reclaim-takes-no-count', not waits(ir) and not wait_in_cond(ir), ir, '_rb_chunk_reclaim does not touch the wait side of the notifier',
+              '_rb_chunk_reclaim takes a count itself: qb_rb_chunk_read, which has waited already, would use two')
+    # read: one wait, and no post on the path on which the chunk was taken
+    rd = prog.fn('qb_rb_chunk_read')
+    wr = waits(rd)
+    ir2 = list(rd.calls('_rb_chunk_reclaim'))
+    ok = len(wr) == 1 and len(ir2) == 1
+    if ok:
+        # the chunk is taken only behind the wait - or on a ring without a notifier
+        h0, _e0, _n0 = rd.search(('entry',), goal=lambda x: x is ir2[0], stop=lambda x: x is wr[0],
+                                 edge_filter=lambda fb, t, lab: not (fb.cond is not None and lab in (True, False) and any(
+                                     last_field(a.l) == ('qb_rb_notifier', 'timedwait_fn') and a.op == '==' and a.rc == 0 for a in atoms_of(fb.cond, lab))))
+        ok = not h0
+    if ok:
+        hits, _e, _n = rd.search(('after', ir2[0]), goal=lambda x: x.kind == 'CALL' and x.callee == POST)
+        ok = not hits
+    ctx.check('R9', 'read-takes-one-count', ok, ir2[0] if ir2 else rd, 'qb_rb_chunk_read waits once and keeps that count for the chunk it takes',
+              'qb_rb_chunk_read does not pair one count with the chunk it takes')
